@@ -16,7 +16,8 @@ theorem fold_tupleStep (ts : List (Str × Str)) (st : L) :
     simp only [List.foldlM_cons, tupleStep]
     by_cases h : num t.1 = num t.2
     · simp [h]
-    · simp [h, ih, bondsOf]
+    · have e : (∃ t' ∈ t :: ts, num t'.1 = num t'.2) ↔ (∃ t' ∈ ts, num t'.1 = num t'.2) := by simp [h]
+      simp only [h, if_false, ok_bind, ih, e, bondsOf, List.map_cons, List.append_assoc, List.singleton_append]
 
 /-- attribute settings with 0-based atom index, as the listener sees them -/
 def settings0 (bs : List (Str × List (Key × Str))) : List ((Int × Key) × Int) :=
@@ -48,6 +49,18 @@ theorem fold_blockStep (bs : List (Str × List (Key × Str))) (st : L) :
     | error e => rfl
     | ok d => simp only [ok_bind]; rw [ih]; rfl
 
+theorem assoc_eq_lookup {κ ν : Type} [DecidableEq κ] (l : List (κ × ν)) (k : κ) : assoc l k = List.lookup k l := by
+  induction l with
+  | nil => rfl
+  | cons p l ih =>
+    obtain ⟨a, b⟩ := p
+    rw [lookup_cons', ← ih]
+    unfold assoc
+    by_cases h : a = k
+    · simp [h]
+    · have : ¬ k = a := fun e => h e.symm
+      simp [h, this]
+
 theorem Key.attr_inj {k k' : Key} (h : k.attr = k'.attr) : k = k' := by
   cases k <;> cases k' <;> first | rfl | (exact absurd h (by decide))
 
@@ -55,15 +68,15 @@ theorem Key.attr_inj {k k' : Key} (h : k.attr = k'.attr) : k = k' := by
 structure AttrInv (d : Dict Int Attrs) (P : List ((Int × Key) × Int)) : Prop where
   wf : d.WF
   vwf : ∀ i a, d.get? i = some a → a.WF
-  get : ∀ i (k : Key), (d.get? i).bind (·.get? k.attr) = (P.lookup (i, k)).map Val.int
-  only : ∀ i a s, d.get? i = some a → a.get? s ≠ none → ∃ k : Key, s = k.attr
+  get : ∀ i (k : Key), (d.get? i).bind (·.get? k.attr) = (assoc P (i, k)).map Val.int
+  onlyKeys : ∀ i a s, d.get? i = some a → a.get? s ≠ none → ∃ k : Key, s = k.attr
   keys : ∀ i, i ∈ d.keys ↔ ∃ s ∈ P, s.1.1 = i
 
 theorem AttrInv.empty : AttrInv Dict.empty [] where
   wf := Dict.WF_empty
   vwf := by intro i a h; simp at h
-  get := by intro i k; simp
-  only := by intro i a s h; simp at h
+  get := by intro i k; simp [assoc]
+  onlyKeys := by intro i a s h; simp at h
   keys := by intro i; simp
 
 theorem addAttr_inv (d : Dict Int Attrs) (P : List ((Int × Key) × Int)) (i : Int) (k : Key) (v : Int)
@@ -79,13 +92,14 @@ theorem addAttr_inv (d : Dict Int Attrs) (P : List ((Int × Key) × Int)) (i : I
     | some a => exact hinv.vwf i a h
   have hc : (Dict.getD d i (Dict.empty : Attrs)).contains k.attr = true ↔ (i, k) ∈ P.map Prod.fst := by
     unfold Dict.contains
-    rw [hsd, hinv.get, Option.isSome_map, lookup_isSome_iff]
+    rw [hsd, hinv.get, Option.isSome_map, assoc_eq_lookup, lookup_isSome_iff]
   constructor
   · intro hm
     simp [addAttr, hc.mpr hm]
   · intro hm
     have hc' : ¬ (Dict.getD d i (Dict.empty : Attrs)).contains k.attr = true := fun h => hm (hc.mp h)
-    refine ⟨_, by simp [addAttr, hc'], ?_⟩
+    refine ⟨(d.set i (Dict.getD d i Dict.empty)).set i ((Dict.getD d i Dict.empty).set k.attr (Val.int v)),
+      by simp [addAttr, hc'], ?_⟩
     have hget : ∀ i', ((d.set i (Dict.getD d i Dict.empty)).set i ((Dict.getD d i Dict.empty).set k.attr (Val.int v))).get? i' =
         if i' = i then some ((Dict.getD d i (Dict.empty : Attrs)).set k.attr (Val.int v)) else d.get? i' := by
       intro i'
@@ -100,24 +114,128 @@ theorem addAttr_inv (d : Dict Int Attrs) (P : List ((Int × Key) × Int)) (i : I
       · cases h; exact Dict.WF_set hsdwf _ _
       · exact hinv.vwf i' a h
     · intro i' k'
-      rw [hget, lookup_append']
+      have hg := hinv.get i' k'
+      rw [hget, assoc_eq_lookup, lookup_append', ← assoc_eq_lookup, lookup_cons']
       by_cases hi : i' = i
       · subst hi
         simp only [if_true, Option.bind_some, Dict.get?_set]
         by_cases hk : k' = k
         · subst hk
-          have : List.lookup (i', k') P = none := by
-            rw [lookup_eq_none_iff']; exact hm
+          have : assoc P (i', k') = none := by rw [assoc_eq_lookup, lookup_eq_none_iff']; exact hm
           simp [this]
         · have : k'.attr ≠ k.attr := fun h => hk (Key.attr_inj h)
-          have hne : (i', k') ≠ (i', k) := by simp [hk]
-          rw [if_neg this, hsd, hinv.get]
-          simp [List.lookup, hne]
-          sorry
-      · have hne : (i', k') ≠ (i, k) := by simp [hi]
-        rw [if_neg hi, hinv.get]
-        sorry
-    · sorry
-    · sorry
+          rw [if_neg this, hsd, hg]
+          simp [hk]
+      · rw [if_neg hi, hg]; simp [hi]
+    · intro i' a s h hs
+      rw [hget] at h
+      split at h
+      · cases h
+        rw [Dict.get?_set] at hs
+        split at hs
+        · exact ⟨k, by assumption⟩
+        · rw [hsd] at hs
+          cases hd : d.get? i with
+          | none => simp [hd] at hs
+          | some a' => rw [hd] at hs; exact hinv.onlyKeys i a' s hd hs
+      · exact hinv.onlyKeys i' a s h hs
+    · intro i'
+      rw [Dict.mem_keys_set, Dict.mem_keys_set, hinv.keys]
+      simp only [List.mem_append, List.mem_singleton]
+      constructor
+      · rintro (h | h | ⟨s, hs, rfl⟩)
+        · exact ⟨_, Or.inr rfl, h.symm⟩
+        · exact ⟨_, Or.inr rfl, h.symm⟩
+        · exact ⟨s, Or.inl hs, rfl⟩
+      · rintro ⟨s, hs | rfl, rfl⟩
+        · exact Or.inr (Or.inr ⟨s, hs, rfl⟩)
+        · exact Or.inl rfl
+
+theorem fold_setStep (Q P : List ((Int × Key) × Int)) (d : Dict Int Attrs) (hinv : AttrInv d P) :
+    (¬ ((P ++ Q).map Prod.fst).Nodup → (P.map Prod.fst).Nodup → Q.foldlM setStep d = .error TPE) ∧
+    (((P ++ Q).map Prod.fst).Nodup → ∃ d', Q.foldlM setStep d = .ok d' ∧ AttrInv d' (P ++ Q)) := by
+  induction Q generalizing P d with
+  | nil =>
+    simp only [List.append_nil]
+    exact ⟨fun h h' => absurd h' h, fun _ => ⟨d, rfl, hinv⟩⟩
+  | cons s Q ih =>
+    obtain ⟨⟨i, k⟩, v⟩ := s
+    have step := addAttr_inv d P i k v hinv
+    have eapp : P ++ ((i, k), v) :: Q = (P ++ [((i, k), v)]) ++ Q := by simp
+    simp only [List.foldlM_cons, setStep]
+    by_cases hm : (i, k) ∈ P.map Prod.fst
+    · constructor
+      · intro _ _; rw [step.1 hm]; rfl
+      · intro hnd
+        exfalso
+        simp only [List.map_append, List.map_cons] at hnd
+        rw [List.nodup_append] at hnd
+        exact hnd.2.2 _ hm _ (by simp) rfl
+    · obtain ⟨d', hd', hinv'⟩ := step.2 hm
+      rw [hd', eapp]
+      simp only [ok_bind]
+      have hP' : ((P ++ [((i, k), v)]).map Prod.fst).Nodup → True := fun _ => trivial
+      constructor
+      · intro hnd hP
+        refine (ih _ d' hinv').1 hnd ?_
+        simp only [List.map_append, List.map_cons, List.map_nil]
+        rw [List.nodup_append]
+        refine ⟨hP, by simp, ?_⟩
+        intro x hx y hy
+        simp at hy; subst hy
+        rintro rfl; exact hm hx
+      · intro hnd
+        exact (ih _ d' hinv').2 hnd
+
+
+def shift (p : Nat × Key) : Int × Key := ((p.1 : Int) - 1, p.2)
+theorem shift_inj : Function.Injective shift := by
+  rintro ⟨a, k⟩ ⟨b, k'⟩ h
+  simp only [shift, Prod.mk.injEq] at h
+  obtain ⟨h1, rfl⟩ := h
+  have : a = b := by omega
+  subst this; rfl
+
+theorem settings0_eq (a : Ast) :
+    settings0 a.blocks = a.settings.map (fun s => (shift s.1, (s.2 : Int))) := by
+  simp [settings0, Ast.settings, List.map_flatMap, shift, Function.comp_def]
+
+theorem settings0_keys (a : Ast) : (settings0 a.blocks).map Prod.fst = (a.settings.map Prod.fst).map shift := by
+  simp [settings0_eq]
+
+theorem settings0_nodup (a : Ast) : ((settings0 a.blocks).map Prod.fst).Nodup ↔ ¬ a.DupAttr := by
+  rw [settings0_keys, List.nodup_map_iff shift_inj, Ast.DupAttr, not_not]
+
+theorem selfBond_iff (a : Ast) : a.SelfBond ↔ ∃ t ∈ a.tuples, num t.1 = num t.2 := by
+  simp only [Ast.SelfBond, Ast.bonds1, List.mem_map]
+  constructor
+  · rintro ⟨b, ⟨t, ht, rfl⟩, h⟩; exact ⟨t, ht, h⟩
+  · rintro ⟨t, ht, h⟩; exact ⟨_, ⟨t, ht, rfl⟩, h⟩
+
+theorem walkSpec_error (a : Ast) (h : a.SelfBond ∨ a.DupAttr) : walkSpec a = .error TPE := by
+  unfold walkSpec
+  simp only [fold_tupleStep]
+  by_cases hs : a.SelfBond
+  · rw [if_pos ((selfBond_iff a).mp hs)]; rfl
+  · rw [if_neg (fun h' => hs ((selfBond_iff a).mpr h'))]
+    have hd : a.DupAttr := h.resolve_left hs
+    simp only [ok_bind, fold_blockStep]
+    have := (fold_setStep (settings0 a.blocks) [] Dict.empty AttrInv.empty).1
+      (by simpa [settings0_nodup] using hd) (by simp)
+    show (List.foldlM setStep Dict.empty (settings0 a.blocks) >>= _) = _
+    rw [this]; rfl
+
+theorem walkSpec_ok (a : Ast) (h1 : ¬ a.SelfBond) (h2 : ¬ a.DupAttr) :
+    ∃ D, walkSpec a = .ok { _atoms := (expand a.formula).map baseAttrs, _bonds := bondsOf a.tuples, _node_attributes := D } ∧
+      AttrInv D (settings0 a.blocks) := by
+  obtain ⟨D, hD, hinv⟩ := (fold_setStep (settings0 a.blocks) [] Dict.empty AttrInv.empty).2
+    (by simpa [settings0_nodup] using h2)
+  refine ⟨D, ?_, by simpa using hinv⟩
+  unfold walkSpec
+  simp only [fold_tupleStep]
+  rw [if_neg (fun h' => h1 ((selfBond_iff a).mpr h'))]
+  simp only [ok_bind, fold_blockStep]
+  show (List.foldlM setStep Dict.empty (settings0 a.blocks) >>= _) = _
+  rw [hD]; rfl
 
 end Contracts.Parser
